@@ -8,6 +8,7 @@ import (
 
 const (
 	validVarFieldName = "validVar"
+	maxTypeDepth      = 64 // 类型嵌套的最大层数, 防止自引用类型(如: type T []T)造成死循环
 )
 
 // VVar 验证单字段
@@ -45,6 +46,7 @@ func (v *VVar) Valid(src interface{}) error {
 	reflectValue := RemoveValuePtr(reflect.ValueOf(src))
 	ty := reflectValue.Type()
 	supportType := false
+	depth := 0
 
 again:
 	// 判断是否能进行验证
@@ -52,6 +54,9 @@ again:
 	case reflect.String, reflect.Bool:
 		supportType = true
 	case reflect.Slice, reflect.Array: // 再验证下里面的内容类型
+		if depth++; depth > maxTypeDepth { // 自引用类型(如: type T []T)没有最终的内容类型
+			return errors.New("src no support")
+		}
 		ty = ty.Elem()
 		goto again
 	// case reflect.Struct: // 为了防止调用混乱, 这里不支持
